@@ -11,7 +11,9 @@ import (
 	"context"
 	"fmt"
 	"math/rand"
+	"os"
 	"runtime"
+	"runtime/debug"
 	"strconv"
 	"strings"
 	"sync"
@@ -493,6 +495,10 @@ func (b *batchRun) prepValue() any {
 		v := payloadVal{Tok: itemTok(1), Note: "single"}
 		b.reg.SetPayload(itemTok(1), v)
 		return v
+	case "singlenilptr": // a single value that is a typed nil pointer is still one item
+		var v *payloadPtr
+		b.reg.SetPayload(itemTok(1), v)
+		return v
 	case "nil":
 		return nil
 	}
@@ -566,6 +572,22 @@ func (b *batchRun) build() *flyt.BatchNodeBuilder {
 
 // the controller releases parked exec calls in the order the scenario prescribes
 func (b *batchRun) controller() {
+	defer func() {
+		if p := recover(); p != nil {
+			// a bug of the harness itself: say so loudly, then let every parked call go so that the run can end
+			fmt.Fprintf(os.Stderr, "HARNESS-PANIC in batch controller: %v\n%s\n", p, debug.Stack())
+			b.mu.Lock()
+			b.stuck = true
+			for _, pc := range b.parked {
+				func() {
+					defer func() { recover() }()
+					close(pc.ch)
+				}()
+			}
+			b.parked = nil
+			b.mu.Unlock()
+		}
+	}()
 	steps := b.sc.Release
 	si := 0
 	offScript := false
